@@ -298,6 +298,25 @@ def gen_raire(rng, malformed=False):
     return skip, rows, wellformed
 
 
+def gen_raire_large(rng):
+    """300..1500 ballot rows, 2..4 contests, a few hundred ballot ids; rows grouped by contest (all of contest 1, then all
+    of contest 2, ...: one id's rows are far apart) or interleaved; some (contest, id) pairs repeated (later wins)."""
+    ncon = rng.randint(2, 4)
+    contests = [f"{300 + j}" for j in range(ncon)]
+    cand_sets = {c: [str(10 * (j + 1) + k) for k in range(rng.randint(2, 5))] for j, c in enumerate(contests)}
+    rows = [[str(ncon)]] + [["Contest", c, str(len(cand_sets[c]))] + cand_sets[c] for c in contests]
+    nrows = rng.randint(300, 1500)
+    nids = rng.randint(max(60, nrows // (ncon + 1)), max(61, nrows // 2))
+    ids = [f"{1 + j % 7}-{1 + j // 7}-{j}" for j in range(nids)]
+    ballots = []
+    for _ in range(nrows):
+        c = rng.choice(contests)
+        ballots.append([c, rng.choice(ids)] + rng.sample(cand_sets[c], rng.randint(0, len(cand_sets[c]))))
+    if rng.random() < 0.7:
+        ballots.sort(key=lambda r: r[0])          # stable: grouped by contest
+    return ncon, rows + ballots, True
+
+
 def raire_expected(skip, rows):
     """the property, computed directly: rank k for the k-th listed candidate, header lines skipped, a card's contests merged"""
     want = {}
@@ -421,6 +440,32 @@ def run(ctx, res):
             res.oracle_violations.append({"what": what, "input": raire_json(c), "signature": f"C18:{what}"})
         if len(c["rows"]) - c["skip"] - 1 >= 2:
             res.nontrivial.add(repr((c["skip"], c["rows"], c["phantom"], c["file"])))
+    # RAIRE inputs with many rows and merge_cvrs on long lists: oracle on the implementation only, nothing sent to Coq
+    big = []
+    for j in range(ctx.n(10, 80)):
+        skip, rows, wf = gen_raire_large(rng)
+        big.append(run_raire(skip, rows, rng.random() < 0.3 and j % 2 == 1, wf, j % 2 == 0))
+    for c in big:
+        res.oracle_runs += 1
+        res.evaluations += 1
+        for what in dict.fromkeys(oracle_raire(c)):
+            j = raire_json(c)
+            j["n_rows"], j["rows"] = len(c["rows"]), j["rows"][:6] + ["..."]
+            j["result"] = C.jsonable((c["out"][0], len(c["out"][1]) if c["out"][0] == "ok" else c["out"][1:],
+                                      len(raire_expected(c["skip"], c["rows"]))))
+            res.oracle_violations.append({"what": what + " (many rows)", "input": j, "signature": f"C18:{what}"})
+        res.nontrivial.add(repr((len(c["rows"]), c["rows"][5:9])))
+    for _ in range(ctx.n(4, 30)):
+        ids = [f"k{j}" for j in range(rng.randint(100, 400))]
+        specs = [gen_spec(rng, ids, True, [None, None, "p1"]) for _ in range(rng.randint(600, 1500))]
+        case, _ = call_merge([build(sp, rng) for sp in specs], 0, [intended(sp) for sp in specs])
+        res.oracle_runs += 1
+        res.evaluations += 1
+        for what in dict.fromkeys(oracle_merge(case)):
+            res.oracle_violations.append({"what": what + " (long list)", "input": {"n_records": len(specs), "n_ids": len(ids)},
+                                          "signature": f"C18:{what}"})
+    stats["raire_many_rows_cases"] = len(big)
+    stats["raire_many_rows_max"] = max(len(c["rows"]) for c in big)
     stats["raire_cases"] = len(rcases)
     stats["raire_file_cases"] = len(fcases)
     stats["raire_errors"] = sum(c["out"][0] == "err" for c in rcases + fcases)
@@ -432,7 +477,9 @@ def run(ctx, res):
                 "None/0/1/''/'x', tally pools incl. None, 0, '', '0', False, conflicting values; a quarter with two records sharing a votes / contest dict object; half of the lists are followed by a call on "
                 "the merged output plus new records and a call on the original objects again. RAIRE: 1..3 contests, 0..8 ballot rows, "
                 "repeated ballot ids, a contest repeated for one id, rows with no candidates, 25% malformed (short / empty row, repeated "
-                "candidate, declared header count smaller / larger than the contest lines); one third through a csv file. "
+                "candidate, declared header count smaller / larger than the contest lines); one third through a csv file. ORACLE ONLY: RAIRE "
+                "inputs of 300..1500 ballot rows grouped by contest (an id's contests far apart) or interleaved, half through a file, and "
+                "merge_cvrs on 600..1500 records over 100..400 ids. "
                 "Non-trivial = some identifier repeated (merge), at least two ballot rows (RAIRE); distinct inputs")
     res.samples = [merge_json(c) for c in cases[200:202]] + [merge_json(c) for c in cases[-2:]] + \
                   [raire_json(c) for c in rcases[:1]] + [raire_json(c) for c in fcases[:1]]
